@@ -1,6 +1,6 @@
 #!/bin/bash
 # run every check's quick (or $1) tier on the current tree; one line per check
-cd /verif
+cd "$(dirname "$0")/.."
 tier=${1:-quick}
 git -C /repo status --porcelain | grep -q . && { echo "/repo not clean"; exit 2; }
 for p in C01 C02 C03 C04 C05 C06 C07 C08 C09 C10 C11 C12 C13 C14 C15 C16 C17 C18 C19 C20; do
